@@ -9,7 +9,7 @@ use rayon::prelude::*;
 use serde_json::json;
 
 pub fn base_names() -> Vec<String> {
-    let mut v: Vec<String> = ["a", "A", "b", "ab", "aB", "\u{e9}", "\u{c9}", "\u{df}", "\u{1f0}", "\u{3c9}", "\u{3a9}", "\u{4e2d}", "\u{e000}x", "\u{ff21}", "\u{ff41}", "\u{1f600}", "a\u{1f600}", "\u{e000}a", "Z", "aa", "\u{ff}", "\u{178}", "\u{131}", "I", "\u{17f}", "S", "\u{101}", "\u{100}", "\u{b5}", "\u{17e}", "s\u{e9}", "S\u{c9}", "\u{17f}z", "Ta", "\u{131}d", "ID", "a_", "a`", "a{", "a[", "a~", "a^", "a@"]
+    let mut v: Vec<String> = ["a", "A", "b", "ab", "aB", "\u{e9}", "\u{c9}", "\u{df}", "\u{1f0}", "\u{3c9}", "\u{3a9}", "\u{4e2d}", "\u{e000}x", "\u{ff21}", "\u{ff41}", "\u{1f600}", "a\u{1f600}", "\u{e000}a", "Z", "aa", "\u{ff}", "\u{178}", "\u{131}", "I", "\u{17f}", "S", "\u{101}", "\u{100}", "\u{b5}", "\u{17e}", "s\u{e9}", "S\u{c9}", "\u{17f}z", "Ta", "\u{131}d", "ID", "a_", "a`", "a{", "a[", "a~", "a^", "a@", "Root Entry", "root entry", "Root Entrz"]
         .iter()
         .map(|s| s.to_string())
         .collect();
